@@ -2,6 +2,7 @@ package govc
 
 import (
 	"fmt"
+	"go/constant"
 	"go/types"
 	"strings"
 
@@ -76,6 +77,13 @@ func (e *FnEnc) call(v ssa.Value, c *ssa.CallCommon, in ssa.Instruction) {
 					all = append(all, e.val(b))
 				}
 				e.contractCall(v, con, f, append(all, args...), f.Signature, in)
+				return
+			}
+		}
+		if name == "fmt.Sprintf" && v != nil {
+			if t, ok := e.sprintfModel(c, args); ok {
+				e.setVal(v, t)
+				e.note("A6 exact library model: fmt.Sprintf with a constant format (verbs other than %s/%d on strings/ints are uninterpreted)")
 				return
 			}
 		}
@@ -366,4 +374,114 @@ func (e *FnEnc) runDefers() {
 		}
 	}
 	e.curGuard = saved
+}
+
+// varargsElems recovers the elements of a variadic argument built with go/ssa's "new [N]T (varargs)" idiom.
+func varargsElems(v ssa.Value) ([]ssa.Value, bool) {
+	if c, ok := v.(*ssa.Const); ok && c.IsNil() {
+		return nil, true
+	}
+	sl, ok := v.(*ssa.Slice)
+	if !ok {
+		return nil, false
+	}
+	al, ok := sl.X.(*ssa.Alloc)
+	if !ok || al.Referrers() == nil {
+		return nil, false
+	}
+	at, ok := al.Type().Underlying().(*types.Pointer).Elem().Underlying().(*types.Array)
+	if !ok {
+		return nil, false
+	}
+	out := make([]ssa.Value, at.Len())
+	for _, r := range *al.Referrers() {
+		ia, ok := r.(*ssa.IndexAddr)
+		if !ok {
+			continue
+		}
+		k, ok := ia.Index.(*ssa.Const)
+		if !ok || ia.Referrers() == nil {
+			return nil, false
+		}
+		for _, rr := range *ia.Referrers() {
+			if st, ok := rr.(*ssa.Store); ok && st.Addr == ia {
+				out[k.Int64()] = st.Val
+			}
+		}
+	}
+	for _, o := range out {
+		if o == nil {
+			return nil, false
+		}
+	}
+	return out, true
+}
+
+func (e *FnEnc) sprintfModel(c *ssa.CallCommon, args []Val) (string, bool) {
+	fc, ok := c.Args[0].(*ssa.Const)
+	if !ok || len(c.Args) < 2 {
+		return "", false
+	}
+	elems, ok := varargsElems(c.Args[1])
+	if !ok {
+		return "", false
+	}
+	format := constant.StringVal(fc.Value)
+	var parts []string
+	lit := ""
+	k := 0
+	for i := 0; i < len(format); i++ {
+		if format[i] != '%' {
+			lit += string(format[i])
+			continue
+		}
+		if i+1 < len(format) && format[i+1] == '%' {
+			lit += "%"
+			i++
+			continue
+		}
+		j := i + 1
+		for j < len(format) && strings.ContainsRune("+-# 0123456789.", rune(format[j])) {
+			j++
+		}
+		if j >= len(format) || k >= len(elems) {
+			return "", false
+		}
+		verb := format[i : j+1]
+		if lit != "" {
+			parts = append(parts, strLit(lit))
+			lit = ""
+		}
+		el := elems[k]
+		k++
+		var inner ssa.Value = el
+		if mi, ok := el.(*ssa.MakeInterface); ok {
+			inner = mi.X
+		}
+		iv := e.val(inner)
+		switch {
+		case verb == "%s" && isString(inner.Type()):
+			parts = append(parts, iv.T)
+		case verb == "%d" && isInteger(inner.Type()):
+			parts = append(parts, sx("str.itoa", iv.T))
+		case iv.T != "" && (verb == "%v" || verb == "%s") && isString(inner.Type()):
+			parts = append(parts, iv.T)
+		default:
+			if iv.T == "" {
+				return "", false
+			}
+			parts = append(parts, e.W.UF("fmt."+mangle(verb)+"."+sortID(e.sorts().SortOf(inner.Type())), []string{e.sorts().SortOf(inner.Type())}, "String", iv.T))
+		}
+		i = j
+	}
+	if lit != "" {
+		parts = append(parts, strLit(lit))
+	}
+	switch len(parts) {
+	case 0:
+		return `""`, true
+	case 1:
+		return parts[0], true
+	}
+	return sx("str.++", parts...), true
 }
